@@ -140,10 +140,16 @@ func (vn *VNet) deliverRPC(victim *NNode, c rpcCase) (resp interface{}, rerr err
 		}()
 		victim.node.VProcessRPC(bnet.RPC{Command: wireCopy(c.cmd), RespChan: ch})
 	}()
+	// a join request that entered consensus blocks until the promise is answered;
+	// any other handler that does not come back (generous limit: the machine may
+	// be loaded) has wedged the node
+	limit := 1500 * time.Millisecond
+	if c.kind != "JoinRequest" {
+		limit = 20 * time.Second
+	}
 	select {
 	case <-done:
-	case <-time.After(1500 * time.Millisecond):
-		// a join request that entered consensus blocks until the promise is answered
+	case <-time.After(limit):
 		return nil, nil, "", true
 	}
 	select {
@@ -321,6 +327,7 @@ func runRPC(o *Opts) *Summary {
 		}
 		all := vn.nodes
 		dead := map[int]bool{}
+		abandon := false
 		gossip(o.Steps/2, all)
 
 		// ---- (A) hostile messages to a babbling node, each followed by a valid exchange
@@ -356,17 +363,30 @@ func runRPC(o *Opts) *Summary {
 			// the next valid messages must still be processed
 			okPull, okPush := true, true
 			var sigErr error
+			wedged := false
 			if !blocked && panicked == "" {
-				if victim.State() == "Babbling" && src.State() == "Babbling" {
-					_, e1 := vn.Pull(victim, src, true)
-					okPull = e1 == nil
-					known := victim.core.KnownEvents()
-					e2 := vn.Push(src, victim, known)
-					okPush = e2 == nil
+				// (under a watchdog: a handler that returned while still holding the
+				// node's lock blocks every later exchange for good)
+				finished := make(chan struct{})
+				go func() {
+					defer close(finished)
+					if victim.State() == "Babbling" && src.State() == "Babbling" {
+						_, e1 := vn.Pull(victim, src, true)
+						okPull = e1 == nil
+						known := victim.core.KnownEvents()
+						e2 := vn.Push(src, victim, known)
+						okPush = e2 == nil
+					}
+					victim.node.VLockCore()
+					sigErr = victim.core.ProcessSigPool()
+					victim.node.VUnlockCore()
+				}()
+				select {
+				case <-finished:
+				case <-time.After(30 * time.Second):
+					wedged = true
+					okPull, okPush = false, false
 				}
-				victim.node.VLockCore()
-				sigErr = victim.core.ProcessSigPool()
-				victim.node.VUnlockCore()
 			}
 			errmsg := ""
 			if rerr != nil {
@@ -383,6 +403,11 @@ func runRPC(o *Opts) *Summary {
 			if panicked != "" {
 				npanics++
 			}
+			if wedged {
+				// the node never answers again: nothing more can be asked of this network
+				abandon = true
+				break
+			}
 			if blocked {
 				break // a parked join handler: leave this victim
 			}
@@ -393,6 +418,15 @@ func runRPC(o *Opts) *Summary {
 				dead[victim.num] = true
 				break
 			}
+		}
+
+		if abandon {
+			// (a wedged node holds its lock: not even shut down)
+			s.Steps += vn.steps
+			s.Events += len(w.events)
+			s.Blocks += vn.blocks
+			s.Errors += vn.errs
+			continue
 		}
 
 		// ---- (D) hostile responses to a node that pulls, fast-forwards or joins
